@@ -10,8 +10,9 @@ def U(s):
     return units(s)
 
 
-def dex_with_strings(strs, use):
-    """DEX holding `strs` in its pool; the strings in `use` are also a field name and a const-string operand."""
+def dex_with_strings(strs, use, order=None):
+    """DEX holding `strs` in its pool; the strings in `use` are also a field name and a const-string operand.
+    order: None (string data in index order) | 'reverse' | 'interleave' (a string id only stores an offset)"""
     code = []
     for s in use:
         code.append(("const-string", 0, s))
@@ -19,6 +20,8 @@ def dex_with_strings(strs, use):
     cls = dict(name="Lt/S;", super="Ljava/lang/Object;", flags=1, sfields=[(s, "I", 9) for s in use], ifields=[],
                dmethods=[dict(name="m", ret="V", params=[], flags=9, code=dict(regs=1, ins=0, outs=0, insns=code))], vmethods=[])
     g = Dex([cls], extra_strings=strs)
+    if order:
+        g.layout['string_data_order'] = order
     return g, g.build()
 
 
@@ -37,11 +40,12 @@ def observe(dex, raw, g, strs, use):
             if ins.get_name() == "const-string":
                 consts[ins.get_ref_kind()] = U(ins.get_raw_string())
     items = d.get_string_data_item()
+    pos = g.layout['string_data_pos']             # get_strings() / get_string_data_item() list the items in file order
     for s in strs:
         i = g.idx["s"][s]
         us = U(s)
-        r = dict(b=list(mutf8(us)), pool=U(pool[i]) if i < len(pool) else [-9], cm=U(cm.get_string(i)), raw=U(cm.get_raw_string(i)),
-                 len=items[i].get_utf16_size(), use=[-2])
+        r = dict(b=list(mutf8(us)), pool=U(pool[pos[i]]) if pos[i] < len(pool) else [-9], cm=U(cm.get_string(i)), raw=U(cm.get_raw_string(i)),
+                 len=items[pos[i]].get_utf16_size(), use=[-2])
         if s in use:
             r["use"] = consts.get(i, [-9]) if tuple(us) in fields else [-8]
         recs.append(r)
@@ -65,7 +69,7 @@ def run(chk):
     for k in range(0, len(strs), 400):
         batch = strs[k:k + 400]
         use = [s for s in batch if s][:40:3]
-        g, raw = dex_with_strings(batch, use)
+        g, raw = dex_with_strings(batch, use, order=(None, "reverse", "interleave")[(k // 400 + 1) % 3])
         recs, npool = observe(dex, raw, g, batch, use)
         for s, rec in zip(batch, recs):
             us = U(s)
@@ -110,7 +114,7 @@ def run(chk):
     # ---- C->S: random strings over the full code-point range -----------------------------------------------------
     allrecs = []
     nfiles = 6 if quick else 80
-    for _ in range(nfiles):
+    for fno in range(nfiles):
         batch = set()
         while len(batch) < 300:
             ln = rnd.choice([0, 1, 1, 2, 3, 5, 8, 20, 130])
@@ -131,7 +135,7 @@ def run(chk):
             batch.add(from_units(us))
         batch = sorted(batch, key=units)
         use = [s for s in batch if s][:60:2]
-        g, raw = dex_with_strings(batch, use)
+        g, raw = dex_with_strings(batch, use, order=(None, "reverse", "interleave")[fno % 3])
         recs, _ = observe(dex, raw, g, batch, use)
         allrecs += recs
     res = tlc.validate("Mutf8_Trace", "Mutf8_Trace.cfg", allrecs, shards=16, heap="2g")
